@@ -141,30 +141,81 @@ def reset_event(line):
 
 
 # ------------------------------------------------------------------- harness
-def run_execs(ctx, binp, execs):
+def run_execs(ctx, binp, execs, max_crashes=None):
     """execs: list of (audit, steps).  One process; returns for each
-    execution the output lines (first = the reset)."""
-    script = []
-    for audit, steps in execs:
-        script.append("audit %d" % (1 if audit else 0))
-        script.append("reset")
-        script += [cmd_of(s) for s in steps]
-    r = ctx.run([binp], input="\n".join(script) + "\n", timeout=600)
-    if r.returncode != 0:
-        raise vlib.ToolError("replay_clock failed rc=%s: %s" % (r.returncode, (r.stderr or "")[-2000:]))
-    lines = r.stdout.splitlines()
-    if len(lines) != sum(1 + len(st) for _, st in execs):
-        raise vlib.ToolError("replay_clock: %d lines for %d commands" %
-                             (len(lines), sum(1 + len(st) for _, st in execs)))
-    out, k = [], 0
-    for _, steps in execs:
-        out.append(lines[k:k + 1 + len(steps)])
-        k += 1 + len(steps)
+    execution the output lines (first = the reset).
+    A command of the code under test that crashes (sanitizer, assert) or does
+    not return (the harness runs every command under an alarm: exit status 5)
+    produces no result line: the execution's output then ends with a line
+    "CRASH <why>", which becomes an event the trace module has no action for.
+    The process is restarted after that execution; after MAX_CRASHES crashed
+    executions the remaining ones are not run and get None (callers drop them:
+    a broken tree must yield a verdict, not a crawl)."""
+    if max_crashes is None:
+        max_crashes = MAX_CRASHES
+    out = [None] * len(execs)
+    start = 0
+    crashes = 0
+    while start < len(execs) and crashes < max_crashes:
+        script, owner = [], []
+        for i in range(start, len(execs)):
+            audit, steps = execs[i]
+            script.append("audit %d" % (1 if audit else 0))
+            owner.append(None)                      # prints nothing
+            script.append("reset")
+            owner.append(i)
+            script += [cmd_of(s) for s in steps]
+            owner += [i] * len(steps)
+        r = ctx.run([binp], input="\n".join(script) + "\n", timeout=600)
+        lines = r.stdout.splitlines()
+        expect = [o for o in owner if o is not None]
+        if r.returncode == 0 and len(lines) != len(expect):
+            raise vlib.ToolError("replay_clock: %d lines for %d commands" % (len(lines), len(expect)))
+        if r.returncode in (2, 3):                  # the harness's own script errors
+            raise vlib.ToolError("replay_clock failed rc=%s: %s" % (r.returncode, (r.stderr or "")[-2000:]))
+        for k in range(min(len(lines), len(expect))):
+            i = expect[k]
+            if out[i] is None:
+                out[i] = []
+            out[i].append(lines[k])
+        if r.returncode == 0:
+            start = len(execs)
+            break
+        if len(lines) >= len(expect):
+            raise vlib.ToolError("replay_clock failed after the last command rc=%s: %s"
+                                 % (r.returncode, (r.stderr or "")[-2000:]))
+        i = expect[len(lines)]
+        if not out[i]:
+            raise vlib.ToolError("replay_clock crashed in reset rc=%s: %s" % (r.returncode, (r.stderr or "")[-2000:]))
+        why = ("hang (command did not return within the harness alarm)" if r.returncode == 5 else
+               "time-out" if r.returncode == 124 else
+               "rc=%s %s" % (r.returncode, " ".join((r.stderr or "").split())[-200:]))
+        out[i].append("CRASH " + why)
+        crashes += 1
+        start = i + 1
     return out
 
 
+MAX_CRASHES = 5
+
+
+NOT_RUN = [0]
+
+
 def hist_of(steps, lines):
-    return [reset_event(lines[0])] + [event_of(s, l) for s, l in zip(steps, lines[1:])]
+    if lines is None:
+        # not executed (batch cut short after MAX_CRASHES crashed executions): a bare
+        # Reset keeps the positions of the other executions; counted in NOT_RUN and
+        # taken off the number of validated traces at the end of run()
+        NOT_RUN[0] += 1
+        return [{"e": "Reset"}]
+    h = [reset_event(lines[0])]
+    for s, l in zip(steps, lines[1:]):
+        if l.startswith("CRASH"):
+            h.append({"e": "Crash", "why": l[6:]})
+            break
+        h.append(event_of(s, l))
+    return h
 
 
 def validate(ctx, hists, tag, max_reject=4):
@@ -178,9 +229,14 @@ def judge_and_report(ctx, binp, audit, steps, source, prediction=None):
     trace, shrink it, report it.  Returns True if reported."""
     lines = run_execs(ctx, binp, [(audit, steps)])[0]
     before = ctx.traces
+    notrun_before = NOT_RUN[0]      # re-runs / shrinking are not counted (either way)
     rej = validate(ctx, [hist_of(steps, lines)], "re", max_reject=1)
     if not rej:
         ctx.traces = before
+        NOT_RUN[0] = notrun_before
+        # kept for the caller's error message: what the re-run looked like
+        ctx.extra["last_unreproduced"] = {"source": source, "steps": len(steps),
+                                          "rerun_lines": len(lines), "rerun_tail": lines[-2:]}
         return False
     steps = steps[:max(1, rej[0][1] - 1)]
     props = rej[0][2]
@@ -190,13 +246,16 @@ def judge_and_report(ctx, binp, audit, steps, source, prediction=None):
         cands = [c for c in cands if c]
         if not cands:
             break
-        outs = run_execs(ctx, binp, [(audit, c) for c in cands])
+        # only the first rejected candidate is used: one crashed / hung candidate
+        # per round is enough (each costs the harness alarm)
+        outs = run_execs(ctx, binp, [(audit, c) for c in cands], max_crashes=1)
         r = validate(ctx, [hist_of(c, o) for c, o in zip(cands, outs)], "shrink", max_reject=1)
         if not r:
             break
         steps = cands[r[0][0]][:max(1, r[0][1] - 1)]
         props = r[0][2] or props
     ctx.traces = before
+    NOT_RUN[0] = notrun_before
     lines = run_execs(ctx, binp, [(audit, steps)])[0]
     key = "ops=" + ";".join(name_of(s) for s in steps)
     what = ("the real uref_clock API disagrees with UrefClock.tla (W=64) after %s: code prints '%s'%s"
@@ -334,7 +393,10 @@ def run(ctx):
     bouts = run_execs(ctx, binp, [(True, st) for st in bsteps])
     nsteps = mism = 0
     opcount = {}
+    notrun = sum(1 for l in bouts if l is None)
     for b, steps, lines in zip(behs, bsteps, bouts):
+        if lines is None:       # not executed: batch cut short after crashed executions
+            continue
         first = None
         for i, st in enumerate(b):
             want = expected_line(st["c"], st["g"])
@@ -354,7 +416,7 @@ def run(ctx):
                 if not ok:
                     raise vlib.ToolError("prediction and code differ (%r vs %r after %s) but TLC accepts the recorded trace"
                                          % (want, got, [cmd_of(s) for s in steps[:i + 1]]))
-    ctx.traces += len(behs) - mism
+    ctx.traces += len(behs) - mism - notrun
     ctx.evaluations += nsteps
     ctx.extra["spec_to_code"] = {"behaviours_replayed": len(behs), "steps_compared": nsteps,
                                  "values_compared": nsteps * 16, "mismatching_behaviours": mism,
@@ -376,11 +438,19 @@ def run(ctx):
                 ok = judge_and_report(ctx, binp, audit, steps[:max(1, line - 1)],
                                       "random script seed=%d execution %d" % (ctx.seed, lo + idx))
                 if not ok:
-                    raise vlib.ToolError("rejected trace did not reproduce (execution %d)" % (lo + idx))
+                    raise vlib.ToolError("rejected trace did not reproduce (execution %d, rejected at line %d of %d "
+                                         "recorded lines, batch tail %r; re-run: %r)"
+                                         % (lo + idx, line, len(outs[lo + idx] or []), (outs[lo + idx] or [])[-2:],
+                                            ctx.extra.get("last_unreproduced")))
     ctx.extra["code_to_spec"] = {"random_executions": nexec, "operations_each": nops,
                                  "with_audit_after_every_call": (nexec + 1) // 2, "rejected": nrej}
-    ctx.sample({"kind": "recorded trace of the real code (validated by UrefClock_Trace)",
-                "events": hist_of(execs[1][1], outs[1])[:10]}, limit=3)
+    if outs[1] is not None:
+        ctx.sample({"kind": "recorded trace of the real code (validated by UrefClock_Trace)",
+                    "events": hist_of(execs[1][1], outs[1])[:10]}, limit=3)
+    if NOT_RUN[0] or notrun:
+        # executions that were not run on the real code are not validated traces
+        ctx.traces = max(0, ctx.traces - NOT_RUN[0])
+        ctx.extra["executions_skipped_after_crashes"] = NOT_RUN[0] + notrun
     pool.shutdown()
     ctx.trusted += ["TLC", "harness/replay_clock.c (calls the API, prints what it returns)",
                     "python conversion between TLC JSON / harness text / ndjson (no expected values computed)"]
